@@ -504,7 +504,7 @@ class Inds(Model):
         raise Unsupported("index %r of the selected centres" % (i,))
 
 
-def check_hilbert_cpu_list_fold(run, tree):
+def check_hilbert_cpu_list_fold(run, tree, levelmaxes=(3, 18, 19, 24)):
     fi = tree.func(HIL + "::hilbert_cpu_list")
     run.analysed(fi)
     rec = []
@@ -522,11 +522,13 @@ def check_hilbert_cpu_list_fold(run, tree):
                      "numpy.argwhere": lambda m: Inds(m) if isinstance(m, Mask) else (_ for _ in ()).throw(Unsupported("argwhere(%r)" % (m,))),
                      "numpy.where": lambda m: (Inds(m),), "numpy.nonzero": lambda m: (Inds(m),), "numpy.flatnonzero": lambda m: Inds(m)},
              "class": {"core/array.py::Array": arr}, "pkgfunc": {HIL + "::_get_cpu_list": stub}}
-    meta = {"ordering type": "hilbert", "boxlen": 2.0, "levelmax": 3, "lmax": 2, "ncpu": 5, "ndim": 3}
+    meta0 = {"ordering type": "hilbert", "boxlen": 2.0, "levelmax": 3, "lmax": 2, "ncpu": 5, "ndim": 3}
     A, B = {c: Sc.sym("first_" + c) for c in "xyz"}, {c: Sc.sym("last_" + c) for c in "xyz"}
-    ncells = 2 ** 3
-    for label, axes in (("predicates on x, y and z", "xyz"), ("predicate on y only", "y"), ("predicates on z and x", "zx")):
-        construct = "%s::hilbert_cpu_list[%s]" % (HIL, label)
+    # deep trees: the predicates may be probed on a coarser grid than the finest cells (a cap on the number of probe points) - the box
+    # must then reach the neighbouring, unselected probe centres, because finer cells in between can qualify
+    for levelmax, (label, axes) in [(lm, la) for lm in levelmaxes for la in (("predicates on x, y and z", "xyz"), ("predicate on y only", "y"), ("predicates on z and x", "zx"))]:
+        meta = dict(meta0, levelmax=levelmax)
+        construct = "%s::hilbert_cpu_list[%s]%s" % (HIL, label, "" if levelmax == 3 else "[levelmax %d]" % levelmax)
         try:
             rec.clear()
             seen = {}
@@ -541,6 +543,12 @@ def check_hilbert_cpu_list_fold(run, tree):
             # what the position predicates are evaluated on: the centres of the finest cells across the WHOLE box in physical units,
             # c_k = (k + 1/2) * boxlen * scale / ncells (boxlen = %s in this fold)
             box = Sc.lift(meta["boxlen"]) * Sc.sym("scale")
+            ns = {seen[c].n for c in axes if isinstance(seen.get(c), Centres)}
+            ncells = ns.pop() if len(ns) == 1 else 2 ** levelmax
+            if not (isinstance(ncells, int) and ncells >= 2 and (ncells == 2 ** levelmax or levelmax > 12)):
+                problems.append("the predicates are probed on %r points per axis (required the 2**levelmax = %d centres of the finest cells; fewer only for deep trees)" % (ncells, 2 ** levelmax))
+                ncells = 2 ** levelmax
+            coarse = ncells < 2 ** levelmax
             for c in axes:
                 cs = seen.get(c)
                 if not isinstance(cs, Centres):
@@ -556,9 +564,25 @@ def check_hilbert_cpu_list_fold(run, tree):
                 for c in "xyz":
                     lo, hi = bb.get(c + "min"), bb.get(c + "max")
                     wl, wh = (A[c] / ncells, (B[c] + 1) / ncells) if c in axes else (Sc.lift(0), Sc.lift(1))
+                    if coarse and c in axes:
+                        # probe cells larger than the finest cells: from the previous probe centre to the next one (at most two probe cells more)
+                        wl, wh = (A[c] - Sc.lift(1) / 2) / ncells, (B[c] + Sc.lift(3) / 2) / ncells
+
+                        def slack(d):
+                            try:
+                                q = d.r.as_poly()
+                            except (ValueError, ZeroDivisionError, AttributeError):
+                                return None
+                            return float(q.const_value()) * ncells if q.is_const() else None
+                        sl_lo = slack(wl - Sc.lift(lo)) if Sc.lift(lo) is not None else None
+                        sl_hi = slack(Sc.lift(hi) - wh) if Sc.lift(hi) is not None else None
+                        if sl_lo is None or sl_hi is None or not (0 <= sl_lo <= 2 and 0 <= sl_hi <= 2):
+                            problems.append("box along %s = [%r, %r] with %d probe points for levelmax %d (required at least [%r, %r]: the probe cells are larger than the finest "
+                                            "cells, whose centres between the last selected and the next probe centre can satisfy the predicate)" % (c, lo, hi, ncells, levelmax, wl, wh))
+                        continue
                     if not (Sc.lift(lo) is not None and Sc.lift(lo) == wl and Sc.lift(hi) is not None and Sc.lift(hi) == wh):
                         problems.append("box along %s = [%r, %r] (required [%r, %r]: the selected finest cells including their half widths, in box units)" % (c, lo, hi, wl, wh))
-                for k_, w in (("lmax", 2), ("levelmax", 3), ("ncpu", 5), ("ndim", 3), ("infofile", "INFO")):
+                for k_, w in (("lmax", 2), ("levelmax", levelmax), ("ncpu", 5), ("ndim", 3), ("infofile", "INFO")):
                     if k_ in kw and kw[k_] != w:
                         problems.append("_get_cpu_list(%s=%r) (required %r)" % (k_, kw[k_], w))
                 if "levelmax" not in kw:
@@ -568,6 +592,7 @@ def check_hilbert_cpu_list_fold(run, tree):
                    "or with a level cap the key stride is computed from the wrong level")
         except ERR as e:
             run.unresolved(construct, fi.where(), "cannot fold: %s" % e)
+    meta = meta0
     # history: the SAME selection (same predicate objects, same box) asked again after the level cap changed: the box search is made again
     # with the new cap (a remembered CPU list keyed on file and box alone would hand out the list of the other cap)
     construct = "%s::hilbert_cpu_list[same selection, another level cap]" % HIL
